@@ -58,6 +58,9 @@ type Gen struct {
 	Seed  uint64
 	emit  func(c Case) bool
 	Count int
+	// Probe runs one case immediately (outside the accounting) so that a
+	// generator can measure a fault-free baseline before enumerating faults.
+	Probe func(c Case) RunOutcome
 }
 
 func (g *Gen) Emit(c Case) bool { g.Count++; return g.emit(c) }
@@ -301,6 +304,10 @@ func runMode(t *testing.T, property string, scenarios []*Scenario) {
 		stopped := false
 		var sub *testing.T
 		g := &Gen{Tier: tier, Seed: seed}
+		g.Probe = func(c Case) RunOutcome {
+			c.Scenario = sc.Name
+			return RunCase(t, sc, &c, false)
+		}
 		g.emit = func(c Case) bool {
 			i := idx
 			idx++
